@@ -433,7 +433,7 @@ func (v *Value) IterateOrder(fn func(idx, count int, key, value *Value) bool, em
 		keyLen := len(keys)
 		for idx, key := range keys {
 			value := v.getResolvedValue().MapIndex(key)
-			if !fn(idx, keyLen, &Value{val: key}, &Value{val: value}) {
+			if !fn(idx, keyLen, &Value{val: resolveInterface(key)}, &Value{val: resolveInterface(value)}) {
 				return
 			}
 		}
@@ -446,7 +446,7 @@ func (v *Value) IterateOrder(fn func(idx, count int, key, value *Value) bool, em
 
 		itemCount := v.getResolvedValue().Len()
 		for i := 0; i < itemCount; i++ {
-			items = append(items, &Value{val: v.getResolvedValue().Index(i)})
+			items = append(items, &Value{val: resolveInterface(v.getResolvedValue().Index(i))})
 		}
 
 		if sorted {
@@ -504,6 +504,15 @@ func (v *Value) IterateOrder(fn func(idx, count int, key, value *Value) bool, em
 		logf("Value.Iterate() not available for type: %s\n", v.getResolvedValue().Kind().String())
 	}
 	empty()
+}
+
+// resolveInterface returns what an interface-kind value (an item of a []any, a key
+// or value of a map[any]any) holds, so that it is judged by its own kind.
+func resolveInterface(rv reflect.Value) reflect.Value {
+	if rv.Kind() == reflect.Interface {
+		return rv.Elem()
+	}
+	return rv
 }
 
 // Interface gives you access to the underlying value.
@@ -585,8 +594,8 @@ func (sk sortedKeys) Len() int {
 }
 
 func (sk sortedKeys) Less(i, j int) bool {
-	vi := &Value{val: sk[i]}
-	vj := &Value{val: sk[j]}
+	vi := &Value{val: resolveInterface(sk[i])}
+	vj := &Value{val: resolveInterface(sk[j])}
 	switch {
 	case vi.IsInteger() && vj.IsInteger():
 		return vi.Integer() < vj.Integer()
